@@ -457,185 +457,244 @@ func genLarge(t *rapid.T) Case {
 	c.IDs = drawIDs(t, n)
 	c.DB = rapid.SampledFrom([]string{"fresh", "existed", "golden"}).Draw(t, "db")
 
-	m := newModel(c)
-	scratch := summary{classes: map[string]int{}}
-	var cuts []int
-	emit := func(op Op) {
-		c.Ops = append(c.Ops, op)
-		m.step(op, &scratch)
-	}
+	g := newLgen(t, &c, n)
 	for _, op := range shape {
-		emit(op)
+		g.emit(op)
 	}
 	if rapid.IntRange(0, 3).Draw(t, "restart-after-shape") == 0 {
-		emit(Op{K: "reopen"})
+		g.emit(Op{K: "reopen"})
 	}
-
-	pick := func(label string, from []int) int { return pickFrom(t, label, from) }
-	// a deep sender: the deepest agent, an agent that has a parent, or any known agent
-	deepNode := func() int {
-		known := m.sortedKnown()
-		if len(known) == 0 {
-			return 0
-		}
-		switch rapid.IntRange(0, 9).Draw(t, "deep-kind") {
-		case 0, 1:
-			return pick("any", known)
-		case 2, 3, 4:
-			var linked []int
-			for _, x := range known {
-				if _, ok := m.parent[x]; ok {
-					linked = append(linked, x)
-				}
-			}
-			if len(linked) > 0 {
-				return pick("linked", linked)
-			}
-		}
-		best, bd := known[0], -1
-		for _, x := range known {
-			if d := m.depth(x); d > bd {
-				best, bd = x, d
-			}
-		}
-		return best
-	}
-	// descendants of x with their distance below x, in universe order
-	below := func(x int) (nodes, dists []int) {
-		for _, y := range m.sortedKnown() {
-			if d := m.dist(x, y); d > 0 {
-				nodes = append(nodes, y)
-				dists = append(dists, d)
-			}
-		}
-		return
-	}
-	generic := func() {
-		kinds := []string{"connect", "connect", "connect", "connect", "connect", "connect", "connect", "connect",
-			"disconnect", "disconnect", "disconnect", "disconnect",
-			"exit", "killdate", "markdead", "markdead", "markalive", "reg", "connectfail", "reopen"}
-		op := Op{K: rapid.SampledFrom(kinds).Draw(t, "kind"), A: rapid.IntRange(0, n-1).Draw(t, "actor")}
-		if rapid.Bool().Draw(t, "known-actor") { // most of a large universe may be unknown: prefer agents that can act
-			if known := m.sortedKnown(); len(known) > 0 {
-				if a := pick("actor-known", known); a < n {
-					op.A = a
-				}
-			}
-		}
-		switch op.K {
-		case "connect":
-			op.B = rapid.IntRange(-1, n-1).Draw(t, "child")
-			op.B = preferOrphan(t, m, op.B)
-		case "disconnect":
-			op.B = rapid.IntRange(-1, n-1).Draw(t, "named")
-			op.F = rapid.IntRange(0, 9).Draw(t, "removed") == 0
-			op.R = rapid.Bool().Draw(t, "pick-child")
-		}
-		emit(op)
-	}
-
 	nops := rapid.IntRange(1, 25).Draw(t, "nops")
 	for i := 0; i < nops; i++ {
-		switch rapid.SampledFrom([]string{"anc", "anc", "anc", "anc", "anc", "self", "cross", "cross", "cut", "cut", "cut",
-			"recut", "recut", "recut", "reopen", "reopen", "death", "alive", "restart-family", "restart-family", "restart-family", "restart-family",
-			"generic", "generic", "generic", "generic", "generic", "generic", "generic", "generic", "generic", "generic"}).Draw(t, "biased") {
-		case "anc": // a deep agent names its ancestor at a drawn distance
-			a := deepNode()
-			dep := m.depth(a)
-			if dep == 0 || a >= n {
-				generic()
-				continue
-			}
-			d := rapid.OneOf(rapid.SampledFrom(ancDists), rapid.SampledFrom([]int{dep - 1, dep}), rapid.IntRange(1, dep)).Draw(t, "distance")
-			emit(Op{K: "connect", A: a, B: m.up(a, clampInt(d, 1, dep))})
-		case "self":
-			if a := deepNode(); a < n {
-				emit(Op{K: "connect", A: a, B: a})
-			}
-		case "cross": // a known agent of another tree (root, inner or leaf) is linked below the sender
-			a := deepNode()
-			var other []int
-			for _, x := range m.sortedKnown() {
-				if x < n && m.root(x) != m.root(a) {
-					other = append(other, x)
-				}
-			}
-			if a >= n || len(other) == 0 {
-				generic()
-				continue
-			}
-			emit(Op{K: "connect", A: a, B: pick("other-tree", other)})
-		case "cut": // a parent reports the disconnect of a child somewhere in the middle
-			var linked []int
-			for _, x := range m.sortedKnown() {
-				if p, ok := m.parent[x]; ok && x < n && p < n {
-					linked = append(linked, x)
-				}
-			}
-			if len(linked) == 0 {
-				generic()
-				continue
-			}
-			x := pick("cut-at", linked)
-			emit(Op{K: "disconnect", A: m.parent[x], B: x})
-			cuts = append(cuts, x)
-		case "recut": // the root of a cut-off subtree is named by one of its own descendants, or linked elsewhere
-			if len(cuts) == 0 {
-				generic()
-				continue
-			}
-			x := pick("cut", cuts)
-			nodes, dists := below(x)
-			if len(nodes) > 0 && rapid.IntRange(0, 3).Draw(t, "recut-kind") != 0 {
-				far := 0
-				for _, d := range dists {
-					if d > far {
-						far = d
-					}
-				}
-				want := clampInt(rapid.OneOf(rapid.SampledFrom(ancDists), rapid.Just(far), rapid.IntRange(1, far)).Draw(t, "distance"), 1, far)
-				a := -1
-				for j, y := range nodes {
-					if dists[j] == want && y < n {
-						a = y
-						break
-					}
-				}
-				if a >= 0 {
-					emit(Op{K: "connect", A: a, B: x})
-					continue
-				}
-			}
-			if a := deepNode(); a < n {
-				emit(Op{K: "connect", A: a, B: x})
-			}
-		case "reopen":
-			emit(Op{K: "reopen"})
-		case "restart-family":
-			restartFamily(t, m, n, emit)
-		case "death": // an inner agent (parent and links) dies
-			var inner []int
-			for _, x := range m.sortedKnown() {
-				if _, ok := m.parent[x]; ok && x < n && m.nlinks(x) > 0 {
-					inner = append(inner, x)
-				}
-			}
-			if len(inner) == 0 {
-				generic()
-				continue
-			}
-			emit(Op{K: rapid.SampledFrom([]string{"exit", "killdate", "markdead"}).Draw(t, "death"), A: pick("inner", inner)})
-		case "alive": // the operator marks a cut-off (hence "Disconnected") agent alive: restarts become possible again
-			if len(cuts) == 0 {
-				generic()
-				continue
-			}
-			emit(Op{K: "markalive", A: pick("cut", cuts)})
-		default:
-			generic()
-		}
+		g.aimed(rapid.SampledFrom(largeKinds).Draw(t, "biased"))
 	}
 	return c
+}
+
+var largeKinds = []string{"anc", "anc", "anc", "anc", "anc", "self", "cross", "cross", "cut", "cut", "cut",
+	"recut", "recut", "recut", "reopen", "reopen", "death", "alive", "restart-family", "restart-family", "restart-family", "restart-family",
+	"generic", "generic", "generic", "generic", "generic", "generic", "generic", "generic", "generic", "generic"}
+
+// lgen is the state of the large-universe generators: the case under construction and the
+// model forest that tells who is deep, who is whose ancestor and which subtrees were cut off.
+type lgen struct {
+	t       *rapid.T
+	c       *Case
+	m       *model
+	n       int
+	cuts    []int
+	scratch summary
+	scale   bool // scale histories: distances of aimed cyclic connects come from the threshold-adjacent pool
+}
+
+func newLgen(t *rapid.T, c *Case, n int) *lgen {
+	return &lgen{t: t, c: c, m: newModel(*c), n: n, scratch: summary{classes: map[string]int{}}}
+}
+
+func (g *lgen) emit(op Op) {
+	g.c.Ops = append(g.c.Ops, op)
+	g.m.step(op, &g.scratch)
+}
+
+func (g *lgen) pick(label string, from []int) int { return pickFrom(g.t, label, from) }
+
+// deepNode: a deep sender: the deepest agent, an agent that has a parent, or any known agent
+func (g *lgen) deepNode() int {
+	t, m := g.t, g.m
+	known := m.sortedKnown()
+	if len(known) == 0 {
+		return 0
+	}
+	switch rapid.IntRange(0, 9).Draw(t, "deep-kind") {
+	case 0, 1:
+		return g.pick("any", known)
+	case 2, 3, 4:
+		var linked []int
+		for _, x := range known {
+			if _, ok := m.parent[x]; ok {
+				linked = append(linked, x)
+			}
+		}
+		if len(linked) > 0 {
+			return g.pick("linked", linked)
+		}
+	}
+	return g.deepest()
+}
+
+// deepest: the first of the deepest known agents, in universe order (agent 0 when none is known)
+func (g *lgen) deepest() int { return g.deepestBelow(g.n + 1) }
+
+// deepestBelow: the same among the agents with an index below limit
+func (g *lgen) deepestBelow(limit int) int {
+	var known []int
+	for _, x := range g.m.sortedKnown() {
+		if x < limit {
+			known = append(known, x)
+		}
+	}
+	if len(known) == 0 {
+		return 0
+	}
+	dep := g.m.depths()
+	best, bd := known[0], -1
+	for _, x := range known {
+		if d := dep[x]; d > bd {
+			best, bd = x, d
+		}
+	}
+	return best
+}
+
+// below: descendants of x with their distance below x, in universe order
+func (g *lgen) below(x int) (nodes, dists []int) {
+	for _, y := range g.m.sortedKnown() {
+		if d := g.m.dist(x, y); d > 0 {
+			nodes = append(nodes, y)
+			dists = append(dists, d)
+		}
+	}
+	return
+}
+
+func (g *lgen) generic() {
+	t, m, n := g.t, g.m, g.n
+	kinds := []string{"connect", "connect", "connect", "connect", "connect", "connect", "connect", "connect",
+		"disconnect", "disconnect", "disconnect", "disconnect",
+		"exit", "killdate", "markdead", "markdead", "markalive", "reg", "connectfail", "reopen"}
+	op := Op{K: rapid.SampledFrom(kinds).Draw(t, "kind"), A: rapid.IntRange(0, n-1).Draw(t, "actor")}
+	if rapid.Bool().Draw(t, "known-actor") { // most of a large universe may be unknown: prefer agents that can act
+		if known := m.sortedKnown(); len(known) > 0 {
+			if a := g.pick("actor-known", known); a < n {
+				op.A = a
+			}
+		}
+	}
+	switch op.K {
+	case "connect":
+		op.B = rapid.IntRange(-1, n-1).Draw(t, "child")
+		op.B = preferOrphan(t, m, op.B)
+	case "disconnect":
+		op.B = rapid.IntRange(-1, n-1).Draw(t, "named")
+		op.F = rapid.IntRange(0, 9).Draw(t, "removed") == 0
+		op.R = rapid.Bool().Draw(t, "pick-child")
+	}
+	g.emit(op)
+}
+
+// distance of an aimed cyclic connect sent from depth dep (far = greatest possible distance)
+func (g *lgen) distance(far int) int {
+	if g.scale {
+		return clampInt(scaleDistance(g.t, far), 1, far)
+	}
+	return clampInt(rapid.OneOf(rapid.SampledFrom(ancDists), rapid.SampledFrom([]int{far - 1, far}), rapid.IntRange(1, far)).Draw(g.t, "distance"), 1, far)
+}
+
+// aimed emits one event of the given kind, chosen with the shape in view
+func (g *lgen) aimed(kind string) {
+	t, m, n := g.t, g.m, g.n
+	switch kind {
+	case "anc": // a deep agent names its ancestor at a drawn distance
+		a := g.deepNode()
+		dep := m.depth(a)
+		if dep == 0 || a >= n {
+			g.generic()
+			return
+		}
+		g.emit(Op{K: "connect", A: a, B: m.up(a, g.distance(dep))})
+	case "self":
+		if a := g.deepNode(); a < n {
+			g.emit(Op{K: "connect", A: a, B: a})
+		}
+	case "cross": // a known agent of another tree (root, inner or leaf) is linked below the sender
+		a := g.deepNode()
+		var other []int
+		ra := m.root(a)
+		for _, x := range m.sortedKnown() {
+			if x < n && m.root(x) != ra {
+				other = append(other, x)
+			}
+		}
+		if a >= n || len(other) == 0 {
+			g.generic()
+			return
+		}
+		g.emit(Op{K: "connect", A: a, B: g.pick("other-tree", other)})
+	case "cut": // a parent reports the disconnect of a child somewhere in the middle
+		var linked []int
+		for _, x := range m.sortedKnown() {
+			if p, ok := m.parent[x]; ok && x < n && p < n {
+				linked = append(linked, x)
+			}
+		}
+		if len(linked) == 0 {
+			g.generic()
+			return
+		}
+		x := g.pick("cut-at", linked)
+		g.emit(Op{K: "disconnect", A: m.parent[x], B: x})
+		g.cuts = append(g.cuts, x)
+	case "recut": // the root of a cut-off subtree is named by one of its own descendants, or linked elsewhere
+		if len(g.cuts) == 0 {
+			g.generic()
+			return
+		}
+		x := g.pick("cut", g.cuts)
+		nodes, dists := g.below(x)
+		if len(nodes) > 0 && rapid.IntRange(0, 3).Draw(t, "recut-kind") != 0 {
+			far := 0
+			for _, d := range dists {
+				if d > far {
+					far = d
+				}
+			}
+			var want int
+			if g.scale {
+				want = g.distance(far)
+			} else {
+				want = clampInt(rapid.OneOf(rapid.SampledFrom(ancDists), rapid.Just(far), rapid.IntRange(1, far)).Draw(t, "distance"), 1, far)
+			}
+			a := -1
+			for j, y := range nodes {
+				if dists[j] == want && y < n {
+					a = y
+					break
+				}
+			}
+			if a >= 0 {
+				g.emit(Op{K: "connect", A: a, B: x})
+				return
+			}
+		}
+		if a := g.deepNode(); a < n {
+			g.emit(Op{K: "connect", A: a, B: x})
+		}
+	case "reopen":
+		g.emit(Op{K: "reopen"})
+	case "restart-family":
+		restartFamily(t, m, n, g.emit)
+	case "death": // an inner agent (parent and links) dies
+		var inner []int
+		cnt := m.linkCounts()
+		for _, x := range m.sortedKnown() {
+			if _, ok := m.parent[x]; ok && x < n && cnt[x] > 0 {
+				inner = append(inner, x)
+			}
+		}
+		if len(inner) == 0 {
+			g.generic()
+			return
+		}
+		g.emit(Op{K: rapid.SampledFrom([]string{"exit", "killdate", "markdead"}).Draw(t, "death"), A: g.pick("inner", inner)})
+	case "alive": // the operator marks a cut-off (hence "Disconnected") agent alive: restarts become possible again
+		if len(g.cuts) == 0 {
+			g.generic()
+			return
+		}
+		g.emit(Op{K: "markalive", A: g.pick("cut", g.cuts)})
+	default:
+		g.generic()
+	}
 }
 
 func TestC09b(t *testing.T) {
